@@ -22,11 +22,12 @@
    (B) is proved in the form: pointer = last write (C04_crash_head_pointer) and
    open returns the block under the pointer (C04_open_head).  (D) is proved for
    all import-only histories and all prefixes at the block level
-   (C04_block_data_complete_every_prefix).  (E) is not proved (needs the
-   completeness theorem of C02 over arbitrary InvD-states); it is checked on the
-   implementation for every prefix. *)
+   (C04_block_data_complete_every_prefix).  (E) is proved from any reopened state that satisfies the chain invariant K
+   (C04_replay_converges) and, with no premise on the reopened state, for crash points at operation
+   boundaries (C04_replay_converges_at_boundary_partial); inside an operation K must be assumed (false
+   in the two known windows); every prefix is checked on the implementation. *)
 From Coq Require Import NArith List Bool.
-From AQ Require Import Chain.Store Chain.ChainSpec Chain.ChainProofs Chain.ChainWitness Chain.Crash Chain.CrashProofs Chain.ChainReopen Chain.CommitOrder Chain.CommitOrderProofs Chain.FailWrite.
+From AQ Require Import Chain.Store Chain.ChainSpec Chain.ChainProofs Chain.ChainWitness Chain.Crash Chain.CrashProofs Chain.ChainReopen Chain.CommitOrder Chain.CommitOrderProofs Chain.FailWrite Chain.ChainCanon Chain.CrashReplay Chain.ChainAllOpsWitness.
 Import ListNotations.
 Local Open Scope N_scope.
 
@@ -107,6 +108,53 @@ Theorem C04_failed_write_disk : forall (U : N -> sblock) (g : header),
     = val_of (last_write KHeadBlock (firstn (pred n) l) None) (genesis_disk g) KHeadBlock.
 Proof. exact failed_write_disk. Qed.
 Print Assumptions C04_failed_write_disk.
+
+(* (E) replay converges.  [ops]: a parent-closed history of linked batches of valid well-formed blocks with
+   enough coins ([closed_hist]).  Feeding it to ANY state s0 that satisfies the chain invariant K (store
+   invariant + number index below the head + receipts + lookup soundness) and stores only blocks of the
+   history reaches the same stored set, the same total difficulties and the same head TD as the crash-free
+   run; if the heaviest block is unique (otherwise the tie-break coin may legitimately pick another head of
+   the same TD) also the same head and the same number index up to the head. *)
+Theorem C04_replay_converges : forall (U : N -> sblock) (g : header),
+  U (h_hash g) = (g, []) -> h_number g = 0 -> forall (ops : list op) (s0 : st),
+  closed_hist U [h_hash g] ops -> K U g s0 ->
+  (forall h, header_of (dsk s0) h <> None -> h = h_hash g \/ exists b, In b (blocks_of ops) /\ h_hash (b_hdr b) = h) ->
+  let sA := run ops (pre_open g) in let sB := run ops s0 in
+  (forall h, header_of (dsk sA) h <> None <-> header_of (dsk sB) h <> None) /\
+  (forall h, header_of (dsk sA) h <> None -> td_of (dsk sA) h = td_of (dsk sB) h) /\
+  head_td sA = head_td sB /\
+  ((forall h, header_of (dsk sA) h <> None -> td_or0 (dsk sA) h = head_td sA -> h = s_hash (cur_block sA)) ->
+   s_hash (cur_block sB) = s_hash (cur_block sA) /\
+   forall n, n <= s_num (cur_block sA) -> canon (dsk sB) n = canon (dsk sA) n).
+Proof. exact replay_converges. Qed.
+Print Assumptions C04_replay_converges.
+
+(* ... for the crash points at operation boundaries (the process dies between two InsertChain calls): the
+   crash disk opens (SOk) and re-feeding the whole history converges, with no premise on the reopened state.
+   `_partial`: for crash points INSIDE an operation the reopened state must still be assumed to satisfy K
+   (replay_converges_after_crash in Chain/CrashReplay.v carries that premise); it is false inside the two
+   known crash windows (C04_open_total_refuted, C04_canon_below_refuted) and unproved outside them. *)
+Theorem C04_replay_converges_at_boundary_partial : forall (U : N -> sblock) (g : header),
+  U (h_hash g) = (g, []) -> h_number g = 0 -> h_hash g <> 0 ->
+  forall (ops : list op) (j : nat), closed_hist U [h_hash g] ops ->
+  (forall b, In b (blocks_of ops) -> h_hash (b_hdr b) <> 0) ->
+  let sA := run ops (pre_open g) in
+  let k := length (log_of (run (firstn j ops) (pre_open g))) in
+  let r := open_db (crash_disk (genesis_disk g) (log_of sA) k) in
+  let sB := run ops (snd r) in
+  fst r = SOk /\
+  (forall h, header_of (dsk sA) h <> None <-> header_of (dsk sB) h <> None) /\
+  (forall h, header_of (dsk sA) h <> None -> td_of (dsk sA) h = td_of (dsk sB) h) /\
+  head_td sA = head_td sB /\
+  ((forall h, header_of (dsk sA) h <> None -> td_or0 (dsk sA) h = head_td sA -> h = s_hash (cur_block sA)) ->
+   s_hash (cur_block sB) = s_hash (cur_block sA) /\
+   forall n, n <= s_num (cur_block sA) -> canon (dsk sB) n = canon (dsk sA) n).
+Proof. exact replay_converges_at_boundary. Qed.
+Print Assumptions C04_replay_converges_at_boundary_partial.
+
+(* non-vacuity: a parent-closed history of valid batches over the witness universe *)
+Example C04_closed_history_example : closed_hist Uw [h_hash wg] ops_closed.
+Proof. exact ops_closed_ok. Qed.
 
 (* closure of the trie store: the commit method of trie.Database emits its puts in post-order (children
    before parents); whatever prefix [p] of that sequence reached the disk - batch
